@@ -179,6 +179,60 @@ func (g s1Gen) limitHopQuery() string {
 	return g.s2Query() + " limit " + Pick(g.rng, []string{"0", "1", "1", "2", "3", "5", "50"})
 }
 
+// withQuery: stage S3a — MATCH (n[:K…]) [WHERE p] WITH items RETURN items, plain items on both sides: the WITH exports the node under its own
+// name or renamed and property values under fresh names; the RETURN reads exported names only.
+func (g s1Gen) withQuery() string {
+	var b strings.Builder
+	b.WriteString("match (n" + Pick(g.rng, []string{"", "", ":NodeKind1", ":NodeKind2:NodeKind1", ":NodeKind2"}) + ")")
+	if g.rng.Chance(1, 2) {
+		b.WriteString(" where " + g.pred(2, 0))
+	}
+	type exp struct {
+		name string
+		node bool
+	}
+	var exps []exp
+	var ws []string
+	k := 1 + g.rng.Intn(4)
+	usedSelf := false
+	for i := 0; i < k; i++ {
+		switch g.rng.Intn(3) {
+		case 0:
+			if !usedSelf {
+				usedSelf = true
+				ws = append(ws, Pick(g.rng, []string{"n", "n", "n as n"}))
+				exps = append(exps, exp{"n", true})
+				continue
+			}
+			fallthrough
+		case 1:
+			nm := fmt.Sprintf("m%d", i)
+			ws = append(ws, "n as "+nm)
+			exps = append(exps, exp{nm, true})
+		default:
+			nm := fmt.Sprintf("x%d", i)
+			ws = append(ws, "n."+Pick(g.rng, []string{"name", "a", "zz"})+" as "+nm)
+			exps = append(exps, exp{nm, false})
+		}
+	}
+	b.WriteString(" with " + strings.Join(ws, ", ") + " return ")
+	m := 1 + g.rng.Intn(4)
+	rs := make([]string, m)
+	for i := range rs {
+		e := Pick(g.rng, exps)
+		it := e.name
+		if e.node {
+			it = Pick(g.rng, []string{e.name, e.name + ".name", e.name + ".a", "id(" + e.name + ")"})
+		}
+		if g.rng.Chance(1, 3) {
+			it += fmt.Sprintf(" as c%d", i)
+		}
+		rs[i] = it
+	}
+	b.WriteString(strings.Join(rs, ", "))
+	return b.String()
+}
+
 // countQuery: stage S1c — MATCH (n[:K…]) [WHERE p] RETURN count(n) [AS c].
 func (g s1Gen) countQuery() string {
 	var b strings.Builder
@@ -311,5 +365,9 @@ func (c01TieSuite) Gen(rng *Rng, tier string, w *bufio.Writer, stats *Stats) {
 	for i := 0; i < n/3; i++ {
 		fmt.Fprintf(w, "# case %d s2cw\nq %s %d 4 0 0\n", 2*n+n/2+i+1, jsonQuote(g.chainWhereQuery()), rng.Intn(1<<20))
 		stats.Inc("s2cw_generated")
+	}
+	for i := 0; i < n/3; i++ {
+		fmt.Fprintf(w, "# case %d s3a\nq %s %d 4 0 0\n", 3*n+i+1, jsonQuote(g.withQuery()), rng.Intn(1<<20))
+		stats.Inc("s3a_generated")
 	}
 }
